@@ -27,6 +27,7 @@ var engines = map[string]func(*engine.Ctx){
 	"C09": engine.C09,
 	"C10": engine.C10,
 	"C11": engine.C11,
+	"C12": engine.C12,
 	"C13": engine.C13,
 	"C18": engine.C18,
 }
